@@ -3,6 +3,11 @@
 # replayed through vcheck (release semantics); exit 1 only if vcheck confirms the artifact.
 t="$1"; runs="${2:-1000000}"; ID=$(echo "$t" | tr a-z A-Z)
 bin=/verif/fuzz/target/x86_64-unknown-linux-gnu/release/$t
+if [ ! -x "$bin" ]; then
+  # lazy build (first thorough run after a fresh restore); never a violation if it does not work out
+  echo "building fuzz target $t (first use) ..."
+  (cd /verif/harness && RUSTFLAGS="--cfg pendulum_project_ntpd_rs_verif --cap-lints warn" CARGO_NET_OFFLINE=true timeout 3000 cargo +nightly fuzz build --fuzz-dir /verif/fuzz -O --sanitizer none "$t" >/dev/null 2>&1)
+fi
 [ -x "$bin" ] || { echo "fuzz target $t not built (see fuzz/README.md); skipped"; exit 0; }
 work=/verif/fuzz/target/run-$t-$$; mkdir -p "$work/corpus" "$work/art"
 cp /verif/corpus/$ID/*.bin "$work/corpus/" 2>/dev/null
